@@ -53,3 +53,70 @@ Definition chk_draws (h : hist Qc) (reqs : list (list (Qc * Z))) (expected : res
 Definition chk_accumulate (h o : hist Qc) (expected : hist Qc) : bool := hist_eqb (accumulate VO h o) expected.
 Definition chk_zero_fill (h : hist Qc) (outs : list Qc) (expected : hist Qc) : bool := hist_eqb (zero_fill VO h outs) expected.
 Definition chk_remove (h : hist Qc) (o : Qc) (expected : hist Qc) : bool := hist_eqb (remove VO h o) expected.
+
+(* ---- generic canonicalisation of weighted tuple lists ---- *)
+From Dyce Require Export Base.Brute Model.Select Model.Pool.
+
+Fixpoint tuple_leb (a b : list Qc) : bool :=
+  match a, b with
+  | [], _ => true
+  | _ :: _, [] => false
+  | x :: a', y :: b' => if Veqb x y then tuple_leb a' b' else Vleb x y
+  end.
+Definition tuple_eqb : list Qc -> list Qc -> bool := list_eqb Veqb.
+
+Section MSort.
+Context {A : Type} (le : A -> A -> bool).
+Fixpoint merge_fuel (fuel : nat) (a b : list A) : list A :=
+  match fuel with
+  | O => a ++ b
+  | S f => match a, b with
+           | [], _ => b
+           | _, [] => a
+           | x :: a', y :: b' => if le x y then x :: merge_fuel f a' b else y :: merge_fuel f a b'
+           end
+  end.
+Definition merge2 (a b : list A) := merge_fuel (length a + length b) a b.
+Fixpoint merge_pairs (ls : list (list A)) : list (list A) :=
+  match ls with
+  | a :: b :: t => merge2 a b :: merge_pairs t
+  | _ => ls
+  end.
+Fixpoint msort_fuel (fuel : nat) (ls : list (list A)) : list A :=
+  match fuel with
+  | O => concat ls
+  | S f => match ls with
+           | [] => []
+           | [a] => a
+           | _ => msort_fuel f (merge_pairs ls)
+           end
+  end.
+Definition msort (l : list A) : list A := msort_fuel (S (length l)) (map (fun x => [x]) l).
+End MSort.
+
+Fixpoint agg_sorted (l : list (list Qc * Z)) : list (list Qc * Z) :=
+  match l with
+  | [] => []
+  | (t, c) :: rest =>
+      match agg_sorted rest with
+      | (t', c') :: r' => if tuple_eqb t t' then (t, c + c') :: r' else (t, c) :: (t', c') :: r'
+      | [] => [(t, c)]
+      end
+  end.
+(* aggregated per roll, zero-count rolls dropped, in a canonical order *)
+Definition canon_rolls (l : list (list Qc * Z)) : list (list Qc * Z) :=
+  filter (fun tc => negb (snd tc =? 0)) (agg_sorted (msort (fun a b => tuple_leb (fst a) (fst b)) l)).
+Definition rolls_eqb (a b : list (list Qc * Z)) : bool :=
+  list_eqb (pair_eqb tuple_eqb Z.eqb) (canon_rolls a) (canon_rolls b).
+
+Definition Vzero : Qc := qc 0 1.
+Definition Vadd (x y : Qc) : Qc := Qcplus x y.
+Definition Vmulz (z : Z) (x : Qc) : Qc := Qcmult (Vz z) x.
+
+(* ---- C02 / C03 ---- *)
+Definition chk_rwc (p : list (hist Qc)) (which : option (list sel)) (expected : res (list (list Qc * Z))) : bool :=
+  res_eqb rolls_eqb (rwc VO Vzero p which) expected.
+Definition chk_p_h (p : list (hist Qc)) (which : option (list sel)) (expected : res (hist Qc)) : bool :=
+  res_eqb (fun a b => hist_eqb (nz a) (nz b)) (p_h VO Vzero Vadd Vmulz p which) expected.
+Definition chk_mkP (hs : list (hist Qc)) (expected : list (hist Qc)) : bool :=
+  list_eqb hist_eqb (mkP VO hs) expected.
